@@ -40,6 +40,14 @@ type Inner struct {
 	C []int32
 }
 
+// Rec refers to itself, with fields declared before and after the self-reference
+type Rec struct {
+	Value int64
+	And   *Rec
+	Label string
+	Tail  *int64
+}
+
 type Outer struct {
 	X   Inner
 	Y   *Inner
@@ -301,6 +309,42 @@ func build() *fixture {
 		Outer{X: in2.want.(Inner), Y: ptrOf(in1.want.(Inner)), Zs: []Inner{in1.want.(Inner), in2.want.(Inner)}, Opt: 9}}
 	echo[Outer](qo, sk, "outer")
 	add(argType{name: "outer", gql: "Outer_InputObject", vals: []val{o1, o2}, wrong: append(append([]val{}, lst...), val{`{x: 1, zs: []}`, map[string]interface{}{"x": 1.0, "zs": []interface{}{}}, nil})})
+	// a self-referential input object, nested up to four levels, with the fields after the self-reference in use
+	recLit := func(depth int) (string, map[string]interface{}, *Rec) {
+		var lit string
+		var js map[string]interface{}
+		var want *Rec
+		for d := depth; d >= 1; d-- {
+			l := fmt.Sprintf(`{value: %d, label: "L%d"`, d, d)
+			j := map[string]interface{}{"value": float64(d), "label": fmt.Sprintf("L%d", d)}
+			w := &Rec{Value: int64(d), Label: fmt.Sprintf("L%d", d)}
+			if d%2 == 0 {
+				l += fmt.Sprintf(`, tail: %d`, d*10)
+				j["tail"] = float64(d * 10)
+				w.Tail = ptrOf(int64(d * 10))
+			}
+			if want != nil {
+				l += ", and: " + lit
+				j["and"] = js
+				w.And = want
+			}
+			lit, js, want = l+"}", j, w
+		}
+		return lit, js, want
+	}
+	var recVals, recWrong []val
+	for depth := 1; depth <= 4; depth++ {
+		l, j, w := recLit(depth)
+		recVals = append(recVals, val{l, j, *w})
+	}
+	// wrong kind / missing required field at a nested level
+	recWrong = append(recWrong,
+		val{`{value: 1, label: "a", and: {value: 2, label: 5}}`, map[string]interface{}{"value": 1.0, "label": "a", "and": map[string]interface{}{"value": 2.0, "label": 5.0}}, nil},
+		val{`{value: 1, label: "a", and: {value: 2}}`, map[string]interface{}{"value": 1.0, "label": "a", "and": map[string]interface{}{"value": 2.0}}, nil},
+		val{`{value: 1, label: "a", and: {value: 2, label: "b", and: {label: "c"}}}`, map[string]interface{}{"value": 1.0, "label": "a", "and": map[string]interface{}{"value": 2.0, "label": "b", "and": map[string]interface{}{"label": "c"}}}, nil},
+		val{`{value: 1, label: "a", and: {value: 2, label: "b", tail: "x"}}`, map[string]interface{}{"value": 1.0, "label": "a", "and": map[string]interface{}{"value": 2.0, "label": "b", "tail": "x"}}, nil})
+	echo[Rec](qo, sk, "rec")
+	add(argType{name: "rec", gql: "Rec_InputObject", vals: recVals, wrong: recWrong})
 	echo[[]Inner](qo, sk, "linner")
 	add(argType{name: "linner", gql: "[Inner_InputObject!]", vals: []val{{"[]", []interface{}{}, []Inner{}}, {"[" + in1.lit + ", " + in2.lit + "]", []interface{}{in1.js, in2.js}, []Inner{in1.want.(Inner), in2.want.(Inner)}}}, wrong: obj})
 
@@ -523,5 +567,5 @@ func run(rp *explore.Report, tier string) {
 
 func init() {
 	reg.Register(&reg.Harness{Property: "C18", Name: "c18/arguments", Level: "exploration", Run: run,
-		Rule: "one echo field per argument type (all int/uint widths, named int/string, float32/64, bool, string, enum, []byte, time.Time, text-unmarshaler, pointers, optional-tagged, lists incl. nested and of pointers, nested input objects) x boundary values x transport {literal, variable, default used (absent / null), default ignored}, plus one three-argument field fed by three variables in every combination of {default, none} x {absent, null, value} and every declaration order, plus variables as elements of list literals / fields of object literals / inside nested lists (all 32 subsets of five positions); oracle: the Go value recorded by the resolver equals the value sent, exactly one resolver call; wrong JSON kinds, missing required and unknown arguments are client errors with zero resolver calls; omitted optional arrives as nil/zero"})
+		Rule: "one echo field per argument type (all int/uint widths, named int/string, float32/64, bool, string, enum, []byte, time.Time, text-unmarshaler, pointers, optional-tagged, lists incl. nested and of pointers, nested input objects, a self-referential input object nested four levels deep) x boundary values x transport {literal, variable, default used (absent / null), default ignored}, plus one three-argument field fed by three variables in every combination of {default, none} x {absent, null, value} and every declaration order, plus variables as elements of list literals / fields of object literals / inside nested lists (all 32 subsets of five positions); oracle: the Go value recorded by the resolver equals the value sent, exactly one resolver call; wrong JSON kinds, missing required and unknown arguments are client errors with zero resolver calls; omitted optional arrives as nil/zero"})
 }
